@@ -6,6 +6,7 @@ import (
 	"fmt"
 	"os"
 	"path/filepath"
+	"regexp"
 	"sort"
 	"strings"
 	"time"
@@ -40,6 +41,8 @@ type PropConfig struct {
 	TrustedBase  []string `json:"trusted_base"`
 	LevelText    string   `json:"level_text"`
 	Replay       string   `json:"replay"`
+	Include      []string `json:"include"` // keep only obligations whose name matches one of these regexps (covers are always kept)
+	Exclude      []string `json:"exclude"`
 	Parts        []string `json:"parts"` // further profile configs (props/<name>.json) run as part of this property
 }
 
@@ -318,6 +321,36 @@ func RunProperty(cfg *PropConfig, root string, opts RunOpts) (*PropRun, error) {
 			continue
 		}
 		run.Funcs = append(run.Funcs, eng.VerifyFunction(fn, con, prof))
+	}
+	if len(cfg.Include) > 0 || len(cfg.Exclude) > 0 {
+		var inc, exc []*regexp.Regexp
+		for _, r := range cfg.Include {
+			inc = append(inc, regexp.MustCompile(r))
+		}
+		for _, r := range cfg.Exclude {
+			exc = append(exc, regexp.MustCompile(r))
+		}
+		for _, fr := range run.Funcs {
+			var kept []*Obl
+			for _, o := range fr.Obls {
+				full := strings.TrimPrefix(o.Func, libPrefix) + "/" + o.Name
+				keep := len(inc) == 0 || o.Expect == "sat"
+				for _, r := range inc {
+					if r.MatchString(full) {
+						keep = true
+					}
+				}
+				for _, r := range exc {
+					if r.MatchString(full) {
+						keep = false
+					}
+				}
+				if keep {
+					kept = append(kept, o)
+				}
+			}
+			fr.Obls = kept
+		}
 	}
 	dir, err := os.MkdirTemp("", "govc-"+cfg.ID+"-")
 	if err != nil {
